@@ -806,6 +806,17 @@ func (c *Client) Do(ctx context.Context, q Query) (err error) {
 		}
 		// Handling query cancellation if needed.
 		if gotException.Load() {
+			// The query is over for the server, and the sender stops at its
+			// next look at the context - unless it is blocked writing to a
+			// server that no longer reads. Give it a moment, then give up the
+			// connection: it cannot be left at a packet boundary.
+			t := time.NewTimer(time.Second)
+			defer t.Stop()
+			select {
+			case <-sent:
+			case <-t.C:
+				_ = c.Close()
+			}
 			return nil
 		}
 		if ctx.Err() == nil && !recvFailed.Load() {
